@@ -23,9 +23,11 @@ import (
 	"golang.org/x/sys/unix"
 )
 
-// A child that has not exited by then is an infrastructure problem (inconclusive run), never a
-// verdict. It must stay below the spec's watchdog so that a stuck child is not reported as "hang".
-const cliChildTimeout = 40 * time.Second
+// A child that has not exited by then is killed and its case ends without a verdict (class
+// cli:inconclusive:child-timeout); only liveness is at stake, so the limit is generous: a starved
+// machine must not produce it. It stays below the watchdog the CLI part sets for the spec, so that a
+// stuck child is not reported as "hang".
+var cliChildTimeout = 90 * time.Second
 
 // steering only: how long the child gets between "signal no longer pending" and the release of
 // the held requests, so that its handler goroutine can cancel the root context first
@@ -63,36 +65,42 @@ type cliState struct {
 }
 
 var (
-	cliSrvOnce   sync.Once
 	cliSrvAddr   string
 	cliSrvMu     sync.Mutex
 	cliSrvStates = map[string]*cliState{}
 	cliSrvSeq    int
 )
 
-func cliServerStart() {
-	cliSrvOnce.Do(func() {
-		// a fixed port below the ephemeral range first: when the machine's ephemeral range is full of
-		// TIME_WAIT sockets bind(0) fails while connects to a fresh 4-tuple still work
-		var ln net.Listener
-		var err error
-		for i := 0; i < 200 && ln == nil; i++ {
-			port := 10000 + (os.Getpid()*11+i*137)%20000
-			ln, err = net.Listen("tcp", "127.0.0.1:"+strconv.Itoa(port))
-		}
-		if ln == nil {
-			ln, err = net.Listen("tcp", "127.0.0.1:0")
-		}
-		if ln == nil {
-			cliInfra("cannot listen on loopback: %v", err)
-		}
-		cliSrvAddr = ln.Addr().String()
-		go http.Serve(ln, http.HandlerFunc(cliServe))
-	})
+// cliServerStart starts the server once; false when no loopback port can be had right now (the
+// case then ends as inconclusive and the next one tries again).
+func cliServerStart() bool {
+	cliSrvMu.Lock()
+	defer cliSrvMu.Unlock()
+	if cliSrvAddr != "" {
+		return true
+	}
+	// a fixed port below the ephemeral range first: when the machine's ephemeral range is full of
+	// TIME_WAIT sockets bind(0) fails while connects to a fresh 4-tuple still work
+	var ln net.Listener
+	for i := 0; i < 200 && ln == nil; i++ {
+		port := 10000 + (os.Getpid()*11+i*137)%20000
+		ln, _ = net.Listen("tcp", "127.0.0.1:"+strconv.Itoa(port))
+	}
+	if ln == nil {
+		ln, _ = net.Listen("tcp", "127.0.0.1:0")
+	}
+	if ln == nil {
+		return false
+	}
+	cliSrvAddr = ln.Addr().String()
+	go http.Serve(ln, http.HandlerFunc(cliServe))
+	return true
 }
 
 func newCLIState(objs map[string][]byte, holdAt int) (prefix string, st *cliState) {
-	cliServerStart()
+	if !cliServerStart() {
+		return "", nil
+	}
 	if objs == nil {
 		objs = map[string][]byte{}
 	}
@@ -255,6 +263,8 @@ type childResult struct {
 	Stderr     string
 	SignalSent bool // the signal was sent while the child was alive and the trigger point was reached
 	DoneBefore int  // requests answered completely when the signal was sent
+	// not "": the run cannot be judged (start-failed, child-timeout, wait-error); the child is gone
+	Inconclusive string
 }
 
 var (
@@ -279,14 +289,24 @@ func runChild(work string, args []string, st *cliState, sig syscall.Signal, open
 	defer runtime.UnlockOSThread()
 	cmd := exec.Command(cliBin(), args...)
 	cmd.Dir = work
-	cmd.Env = []string{"HOME=" + work, "TMPDIR=" + work, "PATH=/usr/bin:/bin", "NO_PROXY=*", "no_proxy=*"}
-	cmd.Env = append(cmd.Env, cliSelfEnv...)
-	cmd.SysProcAttr = &syscall.SysProcAttr{Setpgid: true, Pdeathsig: syscall.SIGKILL}
+	env := append([]string{"HOME=" + work, "TMPDIR=" + work, "PATH=/usr/bin:/bin", "NO_PROXY=*", "no_proxy=*"}, cliSelfEnv...)
+	attr := &syscall.SysProcAttr{Setpgid: true, Pdeathsig: syscall.SIGKILL}
+	cmd.Env, cmd.SysProcAttr = env, attr
 	var se bytes.Buffer
 	cmd.Stderr = &se
 	cmd.Stdout = &se
-	if err := cmd.Start(); err != nil {
-		cliInfra("cannot start %s: %v", cliBin(), err)
+	var serr error
+	for try := 0; try < 6; try++ { // fork can fail for a moment on a machine short of memory or processes
+		if serr = cmd.Start(); serr == nil {
+			break
+		}
+		time.Sleep(time.Duration(try+1) * 300 * time.Millisecond)
+		cmd = exec.Command(cliBin(), args...)
+		cmd.Dir, cmd.Env, cmd.SysProcAttr, cmd.Stderr, cmd.Stdout = work, env, attr, &se, &se
+	}
+	if serr != nil {
+		res.Inconclusive, res.Stderr = "start-failed", serr.Error()
+		return res
 	}
 	pid := cmd.Process.Pid
 	var (
@@ -359,7 +379,7 @@ func runChild(work string, args []string, st *cliState, sig syscall.Signal, open
 	giveUp := func() {
 		send(syscall.SIGKILL, true)
 		<-done
-		cliInfra("desync %v did not exit within %s (signal sent: %v)\n%s", args, cliChildTimeout, res.SignalSent, cliTail(se.String(), 1500))
+		res.Inconclusive = "child-timeout"
 	}
 	var werr error
 	select {
@@ -373,7 +393,7 @@ func runChild(work string, args []string, st *cliState, sig syscall.Signal, open
 		}
 		res.SignalSent = send(sig, false)
 		if res.SignalSent {
-			for i := 0; i < 2000 && sigPending(pid, sig); i++ {
+			for i := 0; i < 20000 && sigPending(pid, sig); i++ { // polling, up to 5 s on a starved machine
 				time.Sleep(250 * time.Microsecond)
 			}
 			time.Sleep(cliSteerDelay)
@@ -400,8 +420,9 @@ func runChild(work string, args []string, st *cliState, sig syscall.Signal, open
 		if ws, ok := ee.Sys().(syscall.WaitStatus); ok && ws.Signaled() {
 			res.Signaled = true
 		}
-	} else if werr != nil {
-		cliInfra("wait for desync: %v", werr)
+	} else if werr != nil && res.Inconclusive == "" {
+		res.Inconclusive = "wait-error"
+		se.WriteString("\nwait: " + werr.Error())
 	}
 	res.Stderr = se.String()
 	return res
